@@ -48,6 +48,7 @@ type Config struct {
 	Seekable bool   `json:"seekable"`
 	Enc      string `json:"enc"` // none user owner both
 	Filter   string `json:"filter"` // filter used for model streams: "" (exact buffering) or a name
+	Tiny     bool   `json:"tiny"`   // smallest possible values (files in which every offset stays below 256)
 }
 
 // ObjStm reports whether the configuration uses object streams and an xref stream.
@@ -291,6 +292,9 @@ func Execute(cfg Config, prog []Op, seed int64) (run Run, err error) {
 	r := rand.New(rand.NewSource(seed))
 	run = Run{Cfg: cfg, ObjStm: cfg.ObjStm(), Seekable: cfg.Seekable, Seed: seed, Written: map[[2]int]Written{}, Reads: []Read{}}
 	vals := map[string]obj.Value{"a": concrete(r, "a"), "b": concrete(r, "b")}
+	if cfg.Tiny {
+		vals = map[string]obj.Value{"a": obj.Array{obj.Name("A")}, "b": obj.Array{obj.Name("B")}}
+	}
 	sdict := map[string]obj.Dict{"a": streamDict(r, "a"), "b": streamDict(r, "b")}
 	// the same pdf value objects are reused for every write of a value id:
 	// writing must not modify the caller's objects
@@ -455,6 +459,10 @@ func Execute(cfg Config, prog []Op, seed int64) (run Run, err error) {
 				w.GetMeta().Catalog.Pages = pref
 				w.GetMeta().Info.Title = "verification program"
 				w.GetMeta().Info.Author = "harness"
+				if cfg.Tiny {
+					w.GetMeta().Info.Title = "t"
+					w.GetMeta().Info.Author = "h"
+				}
 				cerr = w.Close()
 			}
 		default:
@@ -495,7 +503,11 @@ func readBack(run *Run, version pdf.Version, id [][]byte) {
 		return
 	}
 	meta := rd.GetMeta()
-	run.MetaOK = meta.Version == version && meta.Info != nil && meta.Info.Title == "verification program" && meta.Info.Author == "harness" &&
+	title, author := pdf.TextString("verification program"), pdf.TextString("harness")
+	if run.Cfg.Tiny {
+		title, author = "t", "h"
+	}
+	run.MetaOK = meta.Version == version && meta.Info != nil && meta.Info.Title == title && meta.Info.Author == author &&
 		meta.Catalog != nil && meta.Catalog.Pages != 0
 	if version > pdf.V1_0 {
 		run.MetaOK = run.MetaOK && len(meta.ID) == 2 && bytes.Equal(meta.ID[0], id[0]) && bytes.Equal(meta.ID[1], id[1])
